@@ -431,7 +431,7 @@ def run_shard(params: dict, ctx) -> None:
     for L in params["limits"]:
         if L < spec.min_limit():
             continue
-        if ctx.viol_total > 300:
+        if ctx.should_stop(300):
             return
         for path in ("copy", "buffered"):
             if path == "buffered" and not isinstance(spec.ser(L), BufferedIncrementalPacketSerializer):
